@@ -247,7 +247,7 @@ def image_calibration(c, res):
                 if body.local_name(i) == 'frequency_in_hz':
                     sym = 'p%d_frequency_in_hz' % i
                     st.lo[sym], st.hi[sym] = lo, hi
-        got = [json.loads(k) for k, _ in spi.transactions(prog, body, setup=setup)]
+        got = [json.loads(k) for k, _ in spi.transactions(prog, body, setup=setup, unroll=True)]
         want = [['write', ['0x98', '0x%02X' % f1, '0x%02X' % f2]]]
         res.require(got == want, 'C13:sx126x::calibrate_image:%d-%d' % (lo // 1000000, hi // 1000000),
                     'sx126x calibrate_image for %d..%d MHz issues %s; data sheet table 9-2: CalibrateImage(0x%02X, 0x%02X)' % (lo // 1000000, hi // 1000000, got, f1, f2), body.path,
